@@ -46,6 +46,10 @@ class Gen(object):
             for key in ('ge', 'gt', 'le', 'lt'):
                 if key in f and isinstance(f[key], dict):          # {'dt': [...]} instants
                     f[key] = to_dt(f[key])
+            par = f.pop('__parent__', None)
+            if par:                                   # a customization of a customization whose parent has validated a value already
+                c = c(pattern=par['pattern'])
+                assert c.validate_string(c, par['probe']) and c.validate_native(c, par['probe'])
             if f:
                 c = c(**f)
         elif k == 'enum':
